@@ -13,7 +13,7 @@ def replay(ctx, rep):
     from harness import krun
     case = rep['case']
     if case.get('scenario'):
-        return common_scenario_replay(ctx, rep, {'reactive': reactive_scenarios})
+        return common_scenario_replay(ctx, rep, {'reactive': reactive_scenarios, 'slices': slice_and_tuple_scenarios})
     r = krun.Run(case, ['C05']).run()
     for s in r.steps:
         print(s['op'], '->', s['outcome'])
@@ -156,3 +156,114 @@ _kernel_run = run
 def run(ctx, out):   # noqa: F811
     _kernel_run(ctx, out)
     reactive_scenarios(ctx, out)
+
+
+# ---------------------------------------------------------------------------
+# list-based attribute collections written by SLICE (the sizes for which pyecore reports a consistent change), and
+# attributes whose values are tuples: the observer's copy, updated from the notifications alone, has the content the
+# feature has - same elements with the same multiplicity, and each element of the same Python type
+# (oracle on the implementation only; the kernel model has neither slices nor tuple values)
+
+def slice_and_tuple_scenarios(ctx, out):
+    from harness import common
+    common.use_repo()
+    from pyecore import ecore as E
+    from pyecore.notification import EObserver, Kind
+    rng = common.rng_for(ctx.seed, 'C05:slices')
+    n = 80 if ctx.tier != 'thorough' else 1500
+    cnt = 0
+    Point = E.EDataType('Point', tuple)
+    for it in range(n):
+        A = E.EClass('A')
+        A.eStructuralFeatures.append(E.EAttribute('ints', E.EInt, upper=-1, unique=False))
+        pts_unique = rng.random() < 0.5
+        A.eStructuralFeatures.append(E.EAttribute('pts', Point, upper=-1, unique=pts_unique))
+        A.eStructuralFeatures.append(E.EAttribute('pt', Point))
+        a = A()
+        mirror = {'ints': [], 'pts': [], 'pt': None}
+        log = []
+
+        def cb(nf):
+            f = nf.feature.name
+            log.append((nf.kind.name, f, repr(nf.old), repr(nf.new)))
+            if nf.kind in (Kind.SET, Kind.UNSET):
+                mirror[f] = nf.new
+            elif nf.kind in (Kind.ADD, Kind.ADD_MANY):
+                for x in ([nf.new] if nf.kind == Kind.ADD else list(nf.new)):
+                    if not (f == 'pts' and pts_unique and x in mirror[f]):     # a set insertion for a unique feature
+                        mirror[f].append(x)
+            elif nf.kind == Kind.REMOVE:
+                mirror[f].remove(nf.old)
+            elif nf.kind == Kind.REMOVE_MANY:
+                for x in list(nf.old):
+                    mirror[f].remove(x)
+        EObserver(a, notifyChanged=cb)
+        hist = []
+        bad = None
+        for step in range(rng.randrange(3, 10)):
+            k = rng.choice(['slice', 'slice', 'append', 'extend', 'pt', 'pts-append', 'pts-remove', 'pts-extend', 'pop'])
+            try:
+                if k == 'slice':
+                    L = a.ints
+                    i = rng.randrange(0, len(L) + 1)
+                    j = rng.randrange(i, len(L) + 1)
+                    m = rng.randrange(1, 4)                       # a NON-EMPTY right-hand side ...
+                    if j == i and rng.random() < 0.5 and len(L):
+                        j = min(len(L), i + 1)
+                    vals = [rng.randrange(0, 5) for _ in range(m)]
+                    a.ints[i:j] = vals
+                    hist.append(['ints[%d:%d] =' % (i, j), vals])
+                elif k == 'append':
+                    v = rng.randrange(0, 5)
+                    a.ints.append(v)
+                    hist.append(['ints.append', v])
+                elif k == 'extend':
+                    vals = [rng.randrange(0, 5) for _ in range(rng.randrange(1, 3))]
+                    a.ints.extend(vals)
+                    hist.append(['ints.extend', vals])
+                elif k == 'pop' and len(a.ints):
+                    i = rng.randrange(len(a.ints))
+                    a.ints.pop(i)
+                    hist.append(['ints.pop', i])
+                elif k == 'pt':
+                    v = rng.choice([(1, 2), (), (3,), None, (1, 2)])
+                    a.pt = v
+                    hist.append(['pt =', repr(v)])
+                elif k == 'pts-append':
+                    v = rng.choice([(1, 2), (), (3,), (4, 5, 6)])
+                    a.pts.append(v)
+                    hist.append(['pts.append', repr(v)])
+                elif k == 'pts-extend':
+                    vals = [rng.choice([(1, 2), (7,), (8, 9)]) for _ in range(rng.randrange(1, 3))]
+                    a.pts.extend(vals)
+                    hist.append(['pts.extend', repr(vals)])
+                elif k == 'pts-remove' and len(a.pts):
+                    v = rng.choice(list(a.pts))
+                    a.pts.remove(v)
+                    hist.append(['pts.remove', repr(v)])
+                else:
+                    continue
+            except Exception as e:  # noqa
+                bad = ('call-raised', f'{k}: {type(e).__name__}: {e}')
+                break
+            cnt += 1
+            for f in ('ints', 'pts'):
+                have, seen = list(a.eGet(f)), list(mirror[f])
+                if sorted(map(repr, have)) != sorted(map(repr, seen)):
+                    bad = ('mirror-content', f'a.{f} holds {have!r}, the observer built {seen!r} from {log[-3:]}')
+            if not bad and (a.pt != mirror['pt'] or type(a.pt) is not type(mirror['pt'])):
+                bad = ('mirror-content', f'a.pt is {a.pt!r}, the observer was told {mirror["pt"]!r} ({log[-1:]})')
+            if bad:
+                break
+        if bad:
+            out.fail({'property': 'C05', 'clause': bad[0], 'scenario': 'slices'}, f'after {hist[-1] if hist else None}: {bad[1]}',
+                     {'scenario': 'slices', 'seed': ctx.seed, 'tier': ctx.tier, 'history': hist})
+    out.coverage['slice_and_tuple_calls_mirrored'] = cnt
+
+
+_run_r = run
+
+
+def run(ctx, out):   # noqa: F811
+    _run_r(ctx, out)
+    slice_and_tuple_scenarios(ctx, out)
